@@ -148,6 +148,15 @@ func checkC10(c c10Case) (ci caseInfo, err error) {
 			before[v] = true
 		}
 		next, matched := model.RefExpand(ref, refFill)
+		if dup := firstDuplicate(next.Variables()); dup != "" {
+			// the expansion would generate a name that exists already: only a refusal is acceptable
+			ci.label("expansion-generates-a-duplicate-name")
+			var res ast.ItemNode
+			if p, _ := try(func() { res = lib.FillVariables(libFill) }); !p {
+				return ci, fmt.Errorf("round %d: FillVariables(%v) accepted although the expansion generates the name %q twice: %q", r+1, libFill, dup, res.Variables())
+			}
+			return ci, nil
+		}
 		if c.Variant%2 == 1 {
 			touchItem(lib)
 		}
@@ -243,8 +252,14 @@ func checkC10(c c10Case) (ci caseInfo, err error) {
 		}
 		limit++
 		if model.IsEllipsisName(name) {
-			res := lib.FillVariables(map[string]interface{}{libVars[i]: 1})
 			next, matched := model.RefExpand(ref, map[string]int{name: 1})
+			if dup := firstDuplicate(next.Variables()); dup != "" {
+				if p, _ := try(func() { lib.FillVariables(map[string]interface{}{libVars[i]: 1}) }); !p {
+					return ci, fmt.Errorf("filling ellipsis #%d alone with 1 generates the name %q twice but is accepted", i, dup)
+				}
+				continue
+			}
+			res := lib.FillVariables(map[string]interface{}{libVars[i]: 1})
 			if err := compareExpanded(res, next, matched, c.Variant, fmt.Sprintf("filling ellipsis #%d alone with 1", i), nil); err != nil {
 				return ci, err
 			}
@@ -304,6 +319,25 @@ func genC10(t *rapid.T) c10Case {
 		for _, a := range singleFills(root) {
 			renameVar(root, a.Name, fmt.Sprintf("%s[%d]", a.Name, rapid.IntRange(0, 12).Draw(t, "nameIndex")))
 		}
+	}
+	if rapid.IntRange(0, 5).Draw(t, "sharedBase") == 5 {
+		// two variables of ONE item share a base name (x and x[1]): legal as long as the names generated by an
+		// expansion stay distinct; where they do not, the reference expansion shows the duplicate and a refusal is expected
+		root.Walk(func(x *model.Node) {
+			var vars []int
+			for i := range x.Elems {
+				if x.Elems[i].Var != "" {
+					vars = append(vars, i)
+				}
+			}
+			if len(vars) >= 2 {
+				a, b := vars[0], vars[len(vars)-1]
+				if rapid.Bool().Draw(t, "indexedFirst") {
+					a, b = b, a
+				}
+				x.Elems[b].Var = fmt.Sprintf("%s[%d]", x.Elems[a].Var, rapid.IntRange(0, 2).Draw(t, "sharedIndex"))
+			}
+		})
 	}
 	ne := numberEllipses(root)
 	if ne == 1 && rapid.Bool().Draw(t, "plainName") {
@@ -465,4 +499,15 @@ func TestC10Enum(t *testing.T) {
 	} else {
 		stats.setExtra("enum", fmt.Sprintf("a seeded 1/%d slice of the exhaustive template set", stride))
 	}
+}
+
+func firstDuplicate(names []string) string {
+	seen := map[string]bool{}
+	for _, n := range names {
+		if seen[n] && !model.IsEllipsisName(n) {
+			return n
+		}
+		seen[n] = true
+	}
+	return ""
 }
